@@ -56,6 +56,23 @@ def run(env, tier, seed, broken=None):
     for cnd in ['1 == "1"', '"10" != "10.0"', '"a" == "a"', '0 == "0"', '"" == 0', '%s == 0' % NIL, '1 == 1.0', '"1" == "১"', '2 > 1 == %s' % TRUE, '!0', '!"0"', '-0', '0 * -1 == 0', '"x" < "y"', '1 < "2"', '[] == []', '[1] == [1]']:
         extra.append('%s %s;\n%s (%s) { %s "then"; } %s { %s "else"; }\n%s n = 0;\n%s (%s) { n = n + 1; %s (n > 2) { %s; } }\n%s n;\n%s (; %s; ) { %s "for"; %s; }\n' % (
             PRINT, cnd, IF, cnd, PRINT, ELSE, PRINT, VAR, WHILE, cnd, IF, BREAK, PRINT, FOR, cnd, PRINT, BREAK))
+    # the condition is evaluated afresh before EVERY iteration: its operands change during the loop through a function called
+    # from the body, from the increment or from the condition itself, through an array that grows, through a property
+    for cmpop, start, step in [('<', 0, 1), ('<=', 0, 1), ('>', 9, -1), ('>=', 9, -1), ('!=', 0, 1)]:
+        lim = 5 if step > 0 else 4
+        chg = '-' if step > 0 else '+'
+        guard = '%s (i > 25 %s i < -25) { %s; }' % (IF, OR_W, BREAK)   # a loop that would not end is left from the body
+        head = '%s lim = %d;\n%s shrink() { lim = lim %s 1; %s lim; }\n%s box = {lim: %d};\n%s arr = [1, 2, 3];\n%s grow() { arr = %s(arr, 0); }\n' % (
+            VAR, lim, FUN, chg, RETURN, VAR, lim, VAR, FUN, APPEND)
+        for bound, touch in [('lim', 'shrink();'), ('lim %s 0' % chg, 'shrink();'), ('box.lim', 'box.lim = box.lim %s 1;' % chg), ('lim', '%s (i == %d) { shrink(); shrink(); }' % (IF, start + 2 * step)),
+                             ('shrink() %s 1' % ('+' if step > 0 else '-'), ''), ('lim * 1', 'lim = lim %s 1;' % chg)]:
+            cond = 'i %s %s' % (cmpop, bound)
+            extra += [head + '%s (%s i = %d; %s; i = i + %d) { %s i; %s %s }\n%s [lim, box.lim];\n' % (FOR, VAR, start, cond, step, PRINT, touch, guard, PRINT),
+                      head + '%s i = %d;\n%s (%s) { %s i; i = i + %d; %s %s }\n%s [i, lim, box.lim];\n' % (VAR, start, WHILE, cond, PRINT, step, touch, guard, PRINT),
+                      head + '%s (%s i = %d; %s; i = i + %d + 0 * shrink()) { %s i; %s }\n%s lim;\n' % (FOR, VAR, start, cond, step, PRINT, guard, PRINT)]
+        if step > 0:
+            extra += [head + '%s (%s i = 0; i %s %s(arr) %s i < 8; i = i + 1) { %s i; %s (i < 2) { grow(); } }\n%s %s(arr);\n' % (FOR, VAR, cmpop, LEN, AND_W, PRINT, IF, PRINT, LEN),
+                      head + '%s i = 0;\n%s (i %s %s(arr) - 2) { i = i + 1; arr = %s(arr, 0); %s i; }\n%s %s(arr);\n' % (VAR, WHILE, cmpop, LEN, REMOVE, PRINT, PRINT, LEN)]
     for e in extra:
         cases.append({'id': 's%d' % n, 'src': e}); n += 1
     for i in range(1500 if tier == 'quick' else 40000):
